@@ -249,8 +249,12 @@ def run(ctx):
             ctx.disagree("apply_fixes", {"src": srcs[i], "fixes": [f for _, f in fixes]}, unhex(m.group(2)), real)
         if m.group(1) != "1":
             disj_bad += 1
-            fs = sorted(f for _, f in fixes)
-            over = sorted({slug(x[0]) for x, y in zip(fs, fs[1:]) if y[1] < x[2]} | {slug(y[0]) for x, y in zip(fs, fs[1:]) if y[1] < x[2]})
+            fs = sorted((f for _, f in fixes), key=lambda f: (f[1], f[2]))
+            over = set()
+            for x, y in zip(fs, fs[1:]):
+                if y[1] < x[2] or (y[1], y[2]) == (x[1], x[2]):
+                    over |= {slug(x[0]), slug(y[0])}
+            over = sorted(over)
             ctx.fail("C22/overlapping-fixes/" + "+".join(over), "the fixes offered for one program overlap or are out of bounds, so "
                      "apply_fixes is not the simultaneous substitution", src=srcs[i], fixes=[list(f) for _, f in fixes],
                      cmd="garden check --fix --stdout f.gdn")
